@@ -307,7 +307,7 @@ def check_guarded_fields(ctx, rid, cls, only_fields=None, doc=None, only_functio
             if base not in ("this", "*this"):
                 # field of ANOTHER object of the same class (swap, move assignment, merge): the same discipline with that
                 # object's own mutex
-                if base and re.match(r"^p:[A-Za-z_]\w*$", base) and ent.get("kind") == "guarded" and ent.get("guard"):
+                if base and re.match(r"^(p|l):[A-Za-z_][\w$]*$", base) and ent.get("kind") == "guarded" and ent.get("guard"):
                     pos = f.pos_of(st)
                     acc, _u = effective_access(eng, f, st)
                     need = ent["r"] if acc in READ_KINDS else ent["w"]
